@@ -74,6 +74,8 @@ int ed_write_calls;
 int ed_write(string fname, int after) { rec("EDWRITE " + me() + " " + after); hook("edw"); return 1; }
 
 int cmd_x(string arg) { rec("X " + me()); hook("x"); return 1; }
+// a verb function that declines (returns 0): the driver goes on to the next action for the verb
+int cmd_y(string arg) { rec("Y " + me()); hook("y"); return 0; }
 
 void spend(int n) { while (n-- > 0) ; }
 void forever() { while (1) ; }
@@ -746,9 +748,13 @@ void do_op(string op) {
   case "rmx":     // remove_action of "x" from this_player() (legal anywhere; inside a verb function that returns 0 it is an error)
     catch(remove_action("cmd_x", "x"));
     break;
-  case "living":  // make this object a living one with the action "x"
+  case "living":  // make this object a living one with the actions "x" and "y"
     enable_commands();
     add_action("cmd_x", "x");
+    add_action("cmd_y", "y");
+    break;
+  case "rmy":     // remove_action of "y" (from inside cmd_y, which returns 0, the driver has to notice)
+    remove_action("cmd_y", "y");
     break;
   case "spin":    // spin <id> <kind>: run a spender that is infinite by construction
     rec("SPIN " + me() + " " + a[1] + " " + a[2]);
